@@ -237,9 +237,6 @@ func Normalize(dir, goarch string, tags []string) (map[string][]byte, []string) 
 			changed = n.zeroDeclRound()
 		}
 		if !changed {
-			changed = n.unwrapRound()
-		}
-		if !changed {
 			changed = n.paramSplitRound()
 		}
 		if !changed {
@@ -250,6 +247,9 @@ func Normalize(dir, goarch string, tags []string) (map[string][]byte, []string) 
 		}
 		if !changed {
 			changed = n.sinkRound()
+		}
+		if !changed {
+			changed = n.unwrapRound() // last: locals of such a type have been split by field where that is possible
 		}
 		if !changed {
 			break
